@@ -196,7 +196,7 @@ def run_case(sh, i, plan):
         depth = rng.randrange(1, 7)
         caller = getattr(prog.module, f"_call{depth}")
         via_caller = isinstance(W, str)
-        if via_caller and W.replace(".", "").isidentifier() and rng.random() < 0.35:
+        if via_caller and W.replace(".", "").isidentifier() and not hasattr(__import__("builtins"), W.split(".")[0]) and rng.random() < 0.35:
             other = U.Program(rng)
             if rng.random() < 0.5:
                 other.imports.append(prog)  # else: the defining module is loaded, but not bound in the caller's namespace
